@@ -25,6 +25,18 @@ def lattice_cases(rng, count):
         xs = numgen.gen(dt, shape, n, rng)
         cases.append(dict(dt=dt, level=rng.randint(0, 12), order=rng.choice([0, 0, 0, 1, 2]), gcds=1,
                           chunks=split_chunks(xs, rng.choice([1, 1, 2]), rng), shape="gcd-" + shape))
+    # floats: tiny chunks mixing NaNs / infinities / zeros of both signs with ordinary values, so that
+    # single-valued ranges holding a NaN (or -0.0 beside +0.0) get merged with neighbours
+    # (corpus: use_gcd_prefix_optimize used float equality, fixed in bcf6f58)
+    cases.append(dict(dt="f64", level=8, order=0, gcds=1, chunks=[[13759665937199634218, 9223372036854775807]], shape="gcd-corpus-nan"))
+    for _ in range(max(20, count // 25)):
+        dt = rng.choice(["f32", "f64"])
+        w = lib.UBITS[dt]
+        special = numgen.gen(dt, "floats_special", rng.randint(1, 3), rng)
+        other = numgen.gen(dt, rng.choice(["uniform", "lattice", "small"]), rng.randint(1, 4), rng)
+        xs = special + other
+        rng.shuffle(xs)
+        cases.append(dict(dt=dt, level=rng.choice([8, 8, 1, 2, 12]), order=0, gcds=1, chunks=[xs], shape="gcd-float-special"))
     return cases
 
 
